@@ -15,9 +15,10 @@ from .mem import *      # noqa
 
 QUERY_TIMEOUT_MS = int(os.environ.get('VERIF_CVC_TIMEOUT_MS', '60000'))
 MAX_PATHS = 4000
+TRACE = bool(os.environ.get('VERIF_CVC_TRACE'))
 SAFETY_KINDS = ('in_bounds', 'null_deref', 'use_after_free', 'double_free', 'free_valid', 'leak', 'no_overflow', 'shift_range',
                 'div_by_zero', 'memcpy_overlap', 'assert', 'unwind')
-FUNCTIONAL_KINDS = ('ensures', 'requires_at_call', 'loop_inv_entry', 'loop_inv_preserved', 'loop_variant')
+FUNCTIONAL_KINDS = ('ensures', 'requires_at_call', 'loop_inv_entry', 'loop_inv_preserved', 'loop_variant', 'lemma')
 
 
 class FunctionRun:
@@ -193,6 +194,16 @@ class FunctionRun:
         result = e.wrap_arg(ret, rct) if ret is not None else None
         ctx = e.clause_ctx(f, 'post', result=result)
         tr = Translator(ctx, self.reg.defs)
+        if c.lemmas:
+            lctx = e.clause_ctx(f, 'inv', result=result)
+            ltr = Translator(lctx, self.reg.defs)
+            for ln, ltext in c.lemmas.items():
+                try:
+                    g = ltr.clause(ltext)
+                except ClauseError:
+                    continue        # a local of the lemma is not in scope on this return path
+                e.oblige('lemma', ln, g, ltext, self.node)
+                e.assume(g)
         for en, etext in c.ensures.items():
             e.oblige('ensures', en, tr.clause(etext), etext, self.node)
         # leaks: every block allocated during the call is freed or handed over
@@ -227,22 +238,89 @@ class FunctionRun:
 
 
 # ----------------------------------------------------------------------------------------------------- discharge
-def check(pc, goal, timeout_ms):
+STRATEGIES = [s for s in os.environ.get('VERIF_CVC_STRATEGIES', 'simp,default,noematch').split(',') if s]
+# share of the query budget given to each strategy, in order; `unsat` and `sat` from any of them are definite answers
+SHARES = {'simp': 0.4, 'default': 0.3, 'noematch': 0.3}
+
+
+def _solver(strategy):
+    if strategy == 'simp':
+        return z3.Then('simplify', 'smt').solver()
     s = z3.Solver()
-    s.set('timeout', timeout_ms)
+    if strategy == 'noematch':
+        s.set('smt.ematching', False)
+    return s
+
+
+_skn = [0]
+
+
+def split_goal(g, limit=12):
+    """valid(g) <=> every piece valid: conjunctions in positive positions are split through `Implies` and outer `ForAll`
+    (whose variables become fresh constants).  Smaller queries are much steadier for the solver."""
+    if z3.is_and(g):
+        out = []
+        for c in g.children():
+            out += split_goal(c, limit)
+        return out if len(out) <= limit else [g]
+    if z3.is_implies(g):
+        h, c = g.arg(0), g.arg(1)
+        ps = split_goal(c, limit)
+        return [z3.Implies(h, p) for p in ps] if len(ps) > 1 else [g]
+    if z3.is_eq(g) and z3.is_bool(g.arg(0)):
+        a, b = g.arg(0), g.arg(1)
+        return split_goal(z3.Implies(a, b), limit) + split_goal(z3.Implies(b, a), limit)
+    if z3.is_quantifier(g) and g.is_forall():
+        consts = []
+        for i in range(g.num_vars()):
+            _skn[0] += 1
+            consts.append(z3.Const('%s!sk%d' % (g.var_name(i), _skn[0]), g.var_sort(i)))
+        body = z3.substitute_vars(g.body(), *reversed(consts))
+        ps = split_goal(body, limit)
+        return ps if len(ps) > 1 else [g]
+    return [g]
+
+
+def check(pc, goal, timeout_ms):
+    """is /\\ pc => goal valid?  ('unsat'|'sat'|'unknown', seconds, model, reason)"""
     seed = int(os.environ.get('VERIF_SEED', '0') or 0)
-    if seed:
-        s.set('random_seed', seed)
-    s.add(*pc)
-    s.add(z3.Not(goal))
-    t0 = time.time()
-    r = s.check()
-    dt = time.time() - t0
-    if r == z3.unsat:
-        return 'unsat', dt, None, ''
-    if r == z3.sat:
-        return 'sat', dt, s.model(), ''
-    return 'unknown', dt, None, s.reason_unknown()
+    total = 0.0
+    reasons = []
+    tot_share = sum(SHARES.get(x, 0.3) for x in STRATEGIES)
+    for strat in STRATEGIES:
+        s = _solver(strat)
+        s.set('timeout', max(1000, int(timeout_ms * SHARES.get(strat, 0.3) / tot_share)))
+        if seed:
+            s.set('random_seed', seed)
+        s.add(*pc)
+        s.add(z3.Not(goal))
+        t0 = time.time()
+        r = s.check()
+        dt = time.time() - t0
+        total += dt
+        if r == z3.unsat:
+            return 'unsat', total, None, strat
+        if r == z3.sat:
+            return 'sat', total, s.model(), strat
+        reasons.append('%s:%s' % (strat, s.reason_unknown()))
+    return 'unknown', total, None, ','.join(reasons)
+
+
+def small_model(pc, goal, info, model):
+    """prefer a counter-model with short buffers (replayable, readable); any model is equally definite"""
+    lens = [n for (_a, n, _b) in info['arrays'].values() if not z3.is_bv_value(n)]
+    if not lens:
+        return model
+    for bound in (8, 24, 64, 1024):
+        s = z3.Solver()
+        s.set('timeout', 5000)
+        s.add(*pc)
+        s.add(z3.Not(goal))
+        for n in lens:
+            s.add(z3.ULE(n, bv(bound, 64)))
+        if s.check() == z3.sat:
+            return s.model()
+    return model
 
 
 def model_witness(model, info):
@@ -345,7 +423,22 @@ def verify_function(tu, reg, fname, prop='CVC', timeout_ms=None, kinds=None, rep
             n_inst += 1
             if z3.is_true(ob.goal):
                 continue
-            r, dt, model, reason = check(ob.pc, ob.goal, timeout_ms)
+            r, dt, model, reason = 'unsat', 0.0, None, ''
+            for piece in split_goal(ob.goal):
+                r1, dt1, model1, reason1 = check(ob.pc, piece, timeout_ms)
+                dt += dt1
+                if TRACE:
+                    print('      [trace] %s.%s path %d: %s %.2fs (%s) %s' % (kind, name, ob.path, r1, dt1, reason1, str(piece)[-120:].replace('\n', ' ')))
+                if r1 == 'sat':
+                    r, model, reason = r1, model1, reason1
+                    try:
+                        info = next(rn for rn in runs if rn.eng.config == ob.config).entry_info
+                        model = small_model(ob.pc, piece, info, model1)
+                    except Exception:      # noqa
+                        pass
+                    break
+                if r1 == 'unknown':
+                    r, reason = r1, reason1
             secs += dt
             if r == 'unsat':
                 continue
